@@ -411,17 +411,33 @@ pub fn fork_cycle<const V: usize>(e: &mut Exec<V>) {
 pub fn finish<const V: usize>(e: &mut Exec<V>) {
     // C09 floor: used bytes after exhaustive GCs must not creep up
     if e.case.focus == "C09" {
-        let u = &e.used_after_gc;
+        // used bytes after exhaustive GCs that found nothing reachable must stay below a constant floor:
+        // the maximum over the first three such GCs plus a slack of 16 pages per allocator-owned block list
+        // (1 MiB), far below what one leaked block per cycle accumulates over the >= 10 cycles of a case
+        let u = e.used_after_empty_gc.clone();
+        // Absolute floor: when an exhaustive GC leaves no object at all, every plan gives back all its memory
+        // (measured: used_bytes == 0 for all ten collecting plans, with eager and with lazy sweeping); one
+        // 32 KiB block of tolerance.
+        if let Some((k, v)) = u.iter().enumerate().find(|(_, v)| **v > 32 * 1024) {
+            e.violate("C09", "garbage-not-reclaimed", format!("used_bytes is {} after the {}th exhaustive GC that left no object alive (series: {:?})", v, k + 1, u));
+            return;
+        }
+        let u = &u;
         if u.len() > 6 {
             let floor = *u[..3].iter().max().unwrap();
-            let chunk = 4 << 20;
+            let slack = 1 << 20;
             for (k, v) in u.iter().enumerate().skip(3) {
-                if *v > floor + chunk {
-                    e.violate("C09", "used-creeps", format!("used_bytes after GC #{} is {} > floor {} (max of first three) + one chunk", k + 1, v, floor));
+                if *v > floor + slack {
+                    e.violate("C09", "used-creeps", format!("used_bytes after the {}th exhaustive GC with no reachable object is {} > floor {} (max of the first three) + 1 MiB; series: {:?}", k + 1, v, floor, u));
                     return;
                 }
             }
             cnt!(e, "c09_cycles", u.len());
+            let mx = *u.iter().max().unwrap();
+            e.verdict.counters.insert("c09_max_used_after_empty_gc_kb".into(), (mx / 1024) as u64);
+        }
+        if std::env::var("VH_TRACE").is_ok() {
+            eprintln!("C09 series: {:?}", u);
         }
         if g().oom_calls.load(Ordering::SeqCst) > 0 {
             e.violate("C09", "oom", "out_of_memory called in an allocate-drop-GC loop".to_string());
@@ -455,6 +471,8 @@ pub fn finish<const V: usize>(e: &mut Exec<V>) {
     }
     e.verdict.counters.insert("c13_abstain_immortal_in_nursery_gc".into(), super::weak::IMMORTAL_NURSERY_ABSTAIN.load(Ordering::Relaxed));
     e.check_events();
+    e.verdict.counters.insert("plan_idx".into(), super::case::PLANS.iter().position(|p| *p == e.case.plan).unwrap_or(99) as u64);
+    e.verdict.counters.insert("build_base".into(), if cfg!(feature = "vo_bit") { 0 } else { 1 });
     e.verdict.counters.insert("workers".into(), e.case.workers.max(1) as u64);
     e.verdict.counters.insert("mutators_bound_at_end".into(), e.bound.iter().filter(|b| **b).count() as u64);
     e.verdict.counters.insert("sched_pauses".into(), e.sched.pauses);
